@@ -433,23 +433,30 @@ COMMON_TRUSTED = [
 
 
 def prove(res, module_rel, extra_targets=()):
-    """Build the Props module for this property, audit it, record obligations.
-    Returns True if all obligations are discharged. On failure records an
-    'obligation:' violation candidate list in res.failed_obligations (the
-    caller searches for a concrete input first)."""
-    module = "OvniModel.Props." + module_rel
-    path = os.path.join(LEAN, "OvniModel", "Props", module_rel + ".lean")
-    names = theorems_of(path)
+    """Build the Props module(s) for this property, audit them, record
+    obligations. `module_rel` is a name or a list of names under Props/.
+    Returns True if all obligations are discharged. On failure the failing
+    obligations are in res.failed_obligations (the caller searches for a
+    concrete input first)."""
+    rels = [module_rel] if isinstance(module_rel, str) else list(module_rel)
+    modules = ["OvniModel.Props." + r for r in rels]
+    paths = [os.path.join(LEAN, "OvniModel", "Props", r + ".lean") for r in rels]
+    names = []
+    for p in paths:
+        names += theorems_of(p)
     res.cov["obligations"] = len(names)
     res.cov["theorems"] = names
-    res.cov["checker_cmd"] = (f"cd lean && lake build {module} && lake env lean <#print axioms of every theorem>"
-                              + (" && lake env leanchecker " + module if res.tier == "thorough" else ""))
+    res.cov["checker_cmd"] = ("cd lean && lake build " + " ".join(modules) + " && lake env lean <#print axioms of every theorem>"
+                              + (" && lake env leanchecker <module>" if res.tier == "thorough" else ""))
     res.cov["trusted_base"] = list(COMMON_TRUSTED)
     res.failed_obligations = []
-    ok, out = lake_build([module] + list(extra_targets))
+    ok, out = lake_build(modules + list(extra_targets))
     res.build_log = out
     if not ok:
-        bad = failing_theorems(path, out) or ["<module " + module + " does not build>"]
+        bad = []
+        for p in paths:
+            bad += failing_theorems(p, out)
+        bad = bad or ["<module " + " ".join(modules) + " does not build>"]
         res.failed_obligations = bad
         res.cov["discharged"] = max(0, len(names) - len(bad)) if bad[0][0] != "<" else 0
         res.cov["build_errors"] = out[-3000:]
@@ -459,7 +466,11 @@ def prove(res, module_rel, extra_targets=()):
         res.failed_obligations = ["<audit: forbidden construct> " + h for h in hits]
         res.cov["discharged"] = 0
         return False
-    ax, missing, txt = print_axioms(module, names)
+    ax, missing = {}, []
+    for m, p in zip(modules, paths):
+        a, mis, txt = print_axioms(m, theorems_of(p))
+        ax.update(a)
+        missing += mis
     res.cov["axioms"] = {k: v for k, v in ax.items()}
     bad = [n for n in names if n in missing or not set(ax.get(n, [])) <= ALLOWED_AXIOMS]
     if bad:
@@ -468,12 +479,13 @@ def prove(res, module_rel, extra_targets=()):
         return False
     res.cov["discharged"] = len(names)
     if res.tier == "thorough":
-        with flock("lake"):
-            r = run(["lake", "env", "leanchecker", module], cwd=LEAN, timeout=1800)
-        res.cov["leanchecker"] = "ok" if r.returncode == 0 else r.stdout[-500:]
-        if r.returncode != 0:
-            res.failed_obligations = ["<leanchecker> " + module]
-            return False
+        for m in modules:
+            with flock("lake"):
+                r = run(["lake", "env", "leanchecker", m], cwd=LEAN, timeout=1800)
+            res.cov["leanchecker"] = "ok" if r.returncode == 0 else r.stdout[-500:]
+            if r.returncode != 0:
+                res.failed_obligations = ["<leanchecker> " + m]
+                return False
     return True
 
 
